@@ -312,7 +312,7 @@ def gen(tier, rng):
                 v_ne[j] = v_ne[j] + rng.choice([1, 3, 256, 1 << 32])
                 out.append("ext_eq q %s ; %s %s" % (k, lstw(i1, v_ne), lstw(i2, w_eq)))
         v = sorted(vals)[0]
-        kinds = ["LL", "RR", "MD"] + (["LR", "RL"] if len(p1) <= 1 else [])
+        kinds = ["LL", "RR", "MD", "SL", "SR", "LS", "RS"] + (["LR", "RL"] if len(p1) <= 1 else [])
         for kind in kinds:
             out.append("map_conv q %s ; %s %s" % (k, lstw(i1, v), kind))
             out.append("map_conv q %s ; %s %s" % (k, lstw(i1, sorted(vals)[-1]), kind))
